@@ -222,7 +222,8 @@ def make_extern(rec: Recorder, setup=False):
         if plain.endswith("Future>::poll"):
             fut = _name_of(args[0])
             if isinstance(fut, Agg) and fut.ty == "{future}":
-                op, chn, arg = fut.f
+                op, chn, arg = fut.f[:3]
+                ok_value = fut.f[3] if len(fut.f) > 3 else UNIT        # what an environment call yields when it succeeds
                 if op == "mutex_lock_await":
                     # acquiring an async mutex: one blocking visible operation; the guard's drop releases it
                     log(it, "mutex_lock", chn, None)
@@ -233,7 +234,7 @@ def make_extern(rec: Recorder, setup=False):
                 if op == "env_call":
                     c = it.ctx.switch(r, [OK, CLOSED])
                     if c == OK:
-                        return Enum("std::task::Poll", 0, "Ready", [ok(UNIT)])
+                        return Enum("std::task::Poll", 0, "Ready", [ok(ok_value)])
                     if c == CLOSED:
                         ev = it.prog.enum_variants("error::ZmqError")
                         return Enum("std::task::Poll", 0, "Ready", [err(Enum("error::ZmqError", ev.index("ConnectionClosed"), "ConnectionClosed", []))])
